@@ -102,6 +102,23 @@ def gen_cases(rng, tier):
             dup = json.loads(json.dumps(rng.choice(stmts)))
             dup[2] = dup[2][:1]
             stmts.append(dup)
+        # tables made by CopyDecay: for a fresh name used as a daughter above the source, and for a name that ALSO has its own
+        # Decay block (then two tables carry that name and the first one, the Decay block, is the table of that name)
+        if rng.random() < 0.35 and len(dec) >= 2:
+            for _ in range(rng.randint(1, 2)):
+                j = rng.randint(1, len(dec) - 1)
+                i = rng.randint(0, j - 1)
+                if rng.random() < 0.5:
+                    new = dec[i]
+                else:
+                    new = "Cp" + str(len(stmts))
+                    host = [st for st in stmts if st[0] == "Decay" and st[1] == dec[i] and st[2]]
+                    if not host:
+                        continue
+                    rng.choice(host[0][2])["fs"].append(new)
+                if any(st[0] == "CopyDecay" and st[1] == new for st in stmts):
+                    continue
+                stmts.insert(rng.randint(0, len(stmts)), ["CopyDecay", new, dec[j]])
         names = dec + leaves
         if unfold_size(stmts, dec[0]) > 1500 or max(unfold_size(stmts, d) for d in dec) > 4000:
             continue
@@ -122,7 +139,7 @@ def gen_cases(rng, tier):
 
 def unfold_size(stmts, m):
     tabs = {}
-    for st in stmts:
+    for st in first_tables(stmts):
         if st[0] == "Decay" and st[1] not in tabs:
             tabs[st[1]] = st[2]
     memo = {}
@@ -138,14 +155,24 @@ def unfold_size(stmts, m):
 
 
 def first_tables(stmts):
-    """keep the first block of a repeated mother (what parse() keeps)"""
+    """the tables parse() holds: the first block of a repeated mother, then one table per CopyDecay whose source exists
+    (a copy of the source's lines under the new name)"""
     seen, out = set(), []
     for st in stmts:
         if st[0] == "Decay":
             if st[1] in seen:
                 continue
             seen.add(st[1])
-        out.append(st)
+            out.append(st)
+    copies = {}
+    for st in stmts:
+        if st[0] == "CopyDecay":
+            copies[st[1]] = st[2]
+    base = list(out)
+    for new, old in copies.items():
+        src = [t for t in base if t[1] == old]
+        if src:
+            out.append(["Decay", new, json.loads(json.dumps(src[-1][2]))])
     return out
 
 
@@ -174,7 +201,7 @@ def main():
     diffs = vlib.compare_veq(ck, flat_cases, flat_impl, model)
     ck.cov["distinct_nontrivial"] = len({json.dumps(c, sort_keys=True) for c, r in zip(flat_cases, flat_impl) if isinstance(r, list) and "{" not in json.dumps(r)[:0] and json.dumps(r).count("[") > 8})
     ck.cov["rule"] = ("random acyclic table sets (1..10 decaying particles, 0..4 lines, 0..4(+repeats) daughters, empty blocks, "
-                      "repeated mothers), rendered to .dec text; queries (mother, stable set as tuple/list/set): all subsets "
+                      "repeated mothers, CopyDecay tables incl. copies under a name that has its own Decay block), rendered to .dec text; queries (mother, stable set as tuple/list/set): all subsets "
                       "of the particles involved when <=5 particles (sampled 12), random subsets otherwise, plus a not-found "
                       "mother now and then; non-trivial = chain with nested structure")
     ck.cov["samples"] = [{"text": flat_cases[0]["text"], "query": flat_cases[0]["queries"][0]}]
